@@ -3,8 +3,8 @@
 (* the per-family configurations MC_*.cfg.                                  *)
 EXTENDS ErgoSeq
 
-AsIsDev == {"D1", "D2", "D3", "D4", "D5", "D6", "D7", "D10"}
-NoDev   == {}
+\* Dev is given literally in each generated configuration: {} for the ideal
+\* design, the content of asis.json for the code as it is today.
 
 T(t, after) == [title |-> t, body |-> ABSENT, after |-> after]
 Doc(t, tasks) == [title |-> t, body |-> ABSENT, tasks |-> tasks]
